@@ -7,7 +7,10 @@
        own to keep).  htg true = ht (htg_true_iff); htg uk is included in ht (htg_ht).  All pipeline lemmas are
        proved for every uk.
    (2) mk_union_sound, union1_sound, dunion_sound               (+ _ht corollaries for the official ht).
-   (3) py_eq_sound (two-sided py_eq of Model/Merge.v)            side conditions okt0 a, okt0 b.
+   (3) py_eq_sound (py_eq of Model/Merge.v)                      side conditions okt0 a, okt0 b.
+       The union clause of py_eq is the exact sorted(xs) == sorted(ys) of the implementation (Model/PyStr.v);
+       py_eq_union_imp: it implies the two-sided matching (the former model), which is all the proofs use;
+       py_eq_union_sorted, py_eq_refl_raw, py_eq_order_sensitive, py_eq_order_free document the clause.
    (4) merge_field_sets_sound, merge_member_sound                side conditions okf (all sets), no_opt (later sets);
        merge_opt_refuted shows no_opt is needed for the merge alone.
    (5) resolve_sound, str_result_sound                           need an acyclicity certificate (rank);
@@ -23,8 +26,8 @@
    D32 repair (regroup folds over flat_map members_deep): members_deep_* facts before hopt; regroup_sound runs
    split_fold on the work-list; hopt / regroup_K carry the extra condition "work-list has two items"
    (regroup_K_old_refuted); every exported statement is unchanged. *)
-From Coq Require Import List Bool Arith NArith ZArith Lia.
-From J2M.Model Require Import Base Union Merge Optimize Detect.
+From Coq Require Import List Bool Arith NArith ZArith Lia Permutation Sorted.
+From J2M.Model Require Import Base Union PyStr Merge Optimize Detect.
 From J2M.Sem Require Import HasType NF.
 Import ListNotations.
 
@@ -403,6 +406,326 @@ Proof. simpl. induction ts as [|x r IH]; simpl; auto; try (now rewrite IH). Qed.
 Lemma okt0_obj fs : okt0 (TObj fs) = okf0 fs.
 Proof. unfold okf0. simpl. f_equal. induction fs as [|[k x] r IH]; simpl; auto; try (now rewrite IH). Qed.
 
+(* ---- Python == on unions (Model/PyStr.v, Model/Merge.v): sorted(xs) == sorted(ys) with a stable sort.  The positions
+   sorted_pos computed by py_eq for the members of xs are the ranks of a stable sort: pairwise different and below the
+   length, hence a bijection of the positions (pigeonhole), and the sort is a permutation.  So every member of either
+   side is compared with (and equal to) some member of the other side: py_go_union. ---- *)
+(* order facts about str_cmp *)
+Lemma scmp_refl : forall a, str_cmp a a = Eq.
+Proof. induction a as [|c a IH]; simpl; auto. rewrite N.compare_refl. exact IH. Qed.
+Lemma scmp_eq : forall a b, str_cmp a b = Eq -> a = b.
+Proof.
+  induction a as [|c a IH]; intros [|d b]; simpl; intros H; try discriminate; auto.
+  destruct (N.compare c d) eqn:E; try discriminate. apply N.compare_eq in E. subst. f_equal. auto.
+Qed.
+Lemma scmp_opp : forall a b, str_cmp b a = CompOpp (str_cmp a b).
+Proof.
+  induction a as [|c a IH]; intros [|d b]; simpl; auto.
+  rewrite (N.compare_antisym c d). destruct (N.compare c d); simpl; auto.
+Qed.
+Lemma scmp_lt_trans : forall a b c, str_cmp a b = Lt -> str_cmp b c = Lt -> str_cmp a c = Lt.
+Proof.
+  induction a as [|x a IH]; intros [|y b] [|z c]; simpl; intros H1 H2; try discriminate; auto.
+  destruct (N.compare x y) eqn:E1; try discriminate.
+  - apply N.compare_eq in E1. subst y. destruct (N.compare x z); try discriminate; eauto.
+  - destruct (N.compare y z) eqn:E2; try discriminate.
+    + apply N.compare_eq in E2. subst z. rewrite E1. reflexivity.
+    + rewrite N.compare_lt_iff in E1, E2. assert (E3 : (x < z)%N) by lia. rewrite <- N.compare_lt_iff in E3. rewrite E3. reflexivity.
+Qed.
+Lemma str_eqb_iff a b : str_eqb a b = true <-> a = b.
+Proof. unfold str_eqb. destruct (list_eq_dec N.eq_dec a b); split; auto; discriminate. Qed.
+Lemma str_ltb_iff a b : str_ltb a b = true <-> str_cmp a b = Lt.
+Proof. unfold str_ltb. destruct (str_cmp a b); split; auto; discriminate. Qed.
+Lemma str_ltb_irrefl a : str_ltb a a = false.
+Proof. unfold str_ltb. rewrite scmp_refl. reflexivity. Qed.
+Lemma str_ltb_trans a b c : str_ltb a b = true -> str_ltb b c = true -> str_ltb a c = true.
+Proof. rewrite !str_ltb_iff. apply scmp_lt_trans. Qed.
+
+Definition kcnt (p : str -> bool) (l : list str) : nat := length (filter p l).
+Lemma kcnt_app p a b : kcnt p (a ++ b) = kcnt p a + kcnt p b.
+Proof. unfold kcnt. rewrite filter_app, app_length. reflexivity. Qed.
+Lemma kcnt_cons p x l : kcnt p (x :: l) = (if p x then 1 else 0) + kcnt p l.
+Proof. unfold kcnt. simpl. destruct (p x); reflexivity. Qed.
+Lemma kcnt_le p l : kcnt p l <= length l.
+Proof. unfold kcnt. induction l as [|x l IH]; simpl; auto. destruct (p x); simpl; lia. Qed.
+
+Local Notation ltk k := (fun k' : str => str_ltb k' k).
+Local Notation eqk k := (fun k' : str => str_eqb k' k).
+Lemma sorted_pos_kcnt all pre k : sorted_pos all pre k = kcnt (ltk k) all + kcnt (eqk k) pre.
+Proof. reflexivity. Qed.
+Lemma kcnt_lt_eq_le k l : kcnt (ltk k) l + kcnt (eqk k) l <= length l.
+Proof.
+  induction l as [|e l IH]; simpl; auto. rewrite !kcnt_cons.
+  destruct (str_ltb e k) eqn:A, (str_eqb e k) eqn:B; try lia.
+  apply str_eqb_iff in B. subst. rewrite str_ltb_irrefl in A. discriminate.
+Qed.
+Lemma kcnt_lt_mono k k' l : str_ltb k k' = true -> kcnt (ltk k) l + kcnt (eqk k) l <= kcnt (ltk k') l.
+Proof.
+  intros H. induction l as [|e l IH]; simpl; auto. rewrite !kcnt_cons.
+  destruct (str_ltb e k) eqn:A, (str_eqb e k) eqn:B, (str_ltb e k') eqn:C; try lia; exfalso.
+  - apply str_eqb_iff in B. subst. rewrite str_ltb_irrefl in A. discriminate.
+  - apply str_eqb_iff in B. subst. rewrite str_ltb_irrefl in A. discriminate.
+  - rewrite (str_ltb_trans _ _ _ A H) in C. discriminate.
+  - apply str_eqb_iff in B. subst. congruence.
+Qed.
+Lemma kcnt_lt_mono' k k' l : str_ltb k k' = true -> kcnt (ltk k) l <= kcnt (ltk k') l.
+Proof. intros H. pose proof (kcnt_lt_mono k k' l H). lia. Qed.
+
+Lemma sp_rank_bound p k r : sorted_pos (p ++ k :: r) p k < length (p ++ k :: r).
+Proof.
+  rewrite sorted_pos_kcnt, kcnt_app, kcnt_cons, str_ltb_irrefl, app_length. simpl.
+  pose proof (kcnt_lt_eq_le k p). pose proof (kcnt_le (ltk k) r). lia.
+Qed.
+Lemma sp_rank_inj p k m k' r : let all := p ++ k :: m ++ k' :: r in
+  sorted_pos all p k <> sorted_pos all (p ++ k :: m) k'.
+Proof.
+  intros all. unfold all. rewrite !sorted_pos_kcnt.
+  repeat (rewrite kcnt_app || rewrite kcnt_cons). rewrite !str_ltb_irrefl.
+  destruct (str_cmp k k') eqn:E.
+  - apply scmp_eq in E. subst k'. rewrite str_ltb_irrefl.
+    assert (B : str_eqb k k = true) by now apply str_eqb_iff. rewrite B. lia.
+  - assert (L : str_ltb k k' = true) by now apply str_ltb_iff. rewrite L.
+    assert (L' : str_ltb k' k = false).
+    { unfold str_ltb. rewrite scmp_opp, E. reflexivity. }
+    rewrite L'.
+    pose proof (kcnt_lt_mono k k' p L). pose proof (kcnt_lt_mono' k k' m L). pose proof (kcnt_lt_mono' k k' r L).
+    destruct (str_eqb k k'); lia.
+  - assert (L : str_ltb k' k = true) by (apply str_ltb_iff; rewrite scmp_opp, E; reflexivity). rewrite L.
+    assert (L' : str_ltb k k' = false).
+    { unfold str_ltb. rewrite E. reflexivity. }
+    rewrite L'.
+    assert (B : str_eqb k k' = false).
+    { destruct (str_eqb k k') eqn:B; auto. apply str_eqb_iff in B. subst. rewrite str_ltb_irrefl in L. discriminate. }
+    rewrite B.
+    pose proof (kcnt_lt_mono k' k p L). pose proof (kcnt_lt_mono k' k m L). pose proof (kcnt_lt_mono' k' k r L). lia.
+Qed.
+
+Fixpoint sp_ranks (all pre l : list str) : list nat :=
+  match l with [] => [] | k :: r => sorted_pos all pre k :: sp_ranks all (pre ++ [k]) r end.
+Lemma sp_ranks_length all : forall l pre, length (sp_ranks all pre l) = length l.
+Proof. induction l; simpl; auto. Qed.
+Lemma sp_ranks_spec all : forall l pre q, In q (sp_ranks all pre l) ->
+  exists m k r, l = m ++ k :: r /\ q = sorted_pos all (pre ++ m) k.
+Proof.
+  induction l as [|k l IH]; simpl; intros pre q H; [contradiction|]. destruct H as [<-|H].
+  - exists [], k, l. rewrite app_nil_r. auto.
+  - apply IH in H as (m & k' & r & -> & ->). exists (k :: m), k', r. rewrite <- app_assoc. auto.
+Qed.
+Lemma sp_ranks_NoDup : forall l pre, NoDup (sp_ranks (pre ++ l) pre l).
+Proof.
+  induction l as [|k l IH]; simpl; intros pre; constructor.
+  - intros H. apply sp_ranks_spec in H as (m & k' & r & -> & E).
+    rewrite <- app_assoc in E. simpl in E. revert E. apply sp_rank_inj.
+  - specialize (IH (pre ++ [k])). rewrite <- app_assoc in IH. exact IH.
+Qed.
+Lemma sp_ranks_bound : forall l pre q, In q (sp_ranks (pre ++ l) pre l) -> q < length (pre ++ l).
+Proof.
+  intros l pre q H. apply sp_ranks_spec in H as (m & k & r & -> & ->).
+  rewrite app_assoc. apply sp_rank_bound.
+Qed.
+Lemma sp_ranks_perm ks : Permutation (sp_ranks ks [] ks) (seq 0 (length ks)).
+Proof.
+  apply NoDup_Permutation_bis.
+  - apply (sp_ranks_NoDup ks []).
+  - rewrite seq_length, sp_ranks_length. auto.
+  - intros q H. apply (sp_ranks_bound ks []) in H. apply in_seq. simpl in *. lia.
+Qed.
+
+(* the sort is a permutation *)
+Lemma ins_by_perm k x : forall l, Permutation (ins_by k x l) (x :: l).
+Proof.
+  induction l as [|y l IH]; simpl; auto. destruct (str_cmp (k x) (k y)); auto.
+  eapply perm_trans; [apply perm_skip, IH|]. apply perm_swap.
+Qed.
+Lemma ssort_perm : forall l, Permutation (ssort l) l.
+Proof.
+  induction l as [|x l IH]; simpl; auto. eapply perm_trans; [apply ins_by_perm|]. auto.
+Qed.
+
+Section PyGo.
+  Variable f : ty -> ty -> bool.
+  Definition py_go (kx : list str) (sys : list ty) :=
+    fix go (pre : list str) (l : list ty) {struct l} : bool :=
+      match l with
+      | [] => true
+      | x :: r => f x (nth (sorted_pos kx pre (sort_key x)) sys TNull) && go (pre ++ [sort_key x]) r
+      end.
+  Lemma py_go_spec kx sys : forall l pre, py_go kx sys pre l =
+    forallb (fun xp => f (fst xp) (nth (snd xp) sys TNull)) (combine l (sp_ranks kx pre (map sort_key l))).
+  Proof. induction l as [|x l IH]; simpl; intros pre; auto. rewrite IH. reflexivity. Qed.
+
+  Lemma in_combine_r_ex {A B} : forall (l : list A) (l' : list B) b, length l = length l' -> In b l' -> exists a, In (a, b) (combine l l').
+  Proof.
+    induction l as [|a l IH]; intros [|b' l'] b E H; simpl in *; try discriminate; try contradiction.
+    destruct H as [<-|H]; [eauto|]. destruct (IH l' b) as [a' Ha]; auto. eauto.
+  Qed.
+
+  Lemma py_go_union xs ys : length xs = length ys -> py_go (map sort_key xs) (ssort ys) [] xs = true ->
+    (forall x, In x xs -> exists y, In y ys /\ f x y = true) /\ (forall y, In y ys -> exists x, In x xs /\ f x y = true).
+  Proof.
+    intros EL G. rewrite py_go_spec, forallb_forall in G.
+    pose proof (sp_ranks_perm (map sort_key xs)) as P. rewrite map_length in P.
+    assert (LS : length (ssort ys) = length ys) by (apply Permutation_length, ssort_perm).
+    split.
+    - intros x Hx. destruct (in_combine_r_ex (sp_ranks (map sort_key xs) [] (map sort_key xs)) xs x) as [q Hq];
+        [rewrite sp_ranks_length, map_length; auto | auto |].
+      assert (Hq' : In (x, q) (combine xs (sp_ranks (map sort_key xs) [] (map sort_key xs)))).
+      { clear - Hq. revert Hq. generalize (sp_ranks (map sort_key xs) [] (map sort_key xs)).
+        induction xs as [|a l IH]; intros [|b l'] H; simpl in *; try contradiction.
+        destruct H as [H|H]; [left; congruence | right; auto]. }
+      pose proof (G _ Hq') as Fx. simpl in Fx. exists (nth q (ssort ys) TNull). split; auto.
+      apply (Permutation_in _ (ssort_perm ys)). apply nth_In. rewrite LS, <- EL.
+      apply in_combine_r in Hq'. apply (Permutation_in _ P) in Hq'. apply in_seq in Hq'. lia.
+    - intros y Hy. apply (Permutation_in _ (Permutation_sym (ssort_perm ys))) in Hy.
+      destruct (In_nth _ _ TNull Hy) as (q & Lq & <-).
+      assert (Hq : In q (sp_ranks (map sort_key xs) [] (map sort_key xs))).
+      { apply (Permutation_in _ (Permutation_sym P)). apply in_seq. lia. }
+      destruct (in_combine_r_ex xs (sp_ranks (map sort_key xs) [] (map sort_key xs)) q) as [x Hx]; [rewrite sp_ranks_length, map_length; auto | exact Hq |].
+      exists x. split; [eapply in_combine_l; eauto|]. apply (G _ Hx).
+  Qed.
+End PyGo.
+
+
+(* ---- rank correctness: the stable insertion sort puts the member of xs that is preceded by p at position
+   sorted_pos (keys of xs) (keys of p) (its key): ssort_nth.  Hence py_go f on (xs, ssort xs) compares every member with
+   itself: py_go_refl. ---- *)
+Lemma str_nlt_trans a b c : str_ltb b a = false -> str_ltb c b = false -> str_ltb c a = false.
+Proof.
+  intros H1 H2. destruct (str_ltb c a) eqn:H3; auto. exfalso.
+  destruct (str_cmp b a) eqn:E.
+  - apply scmp_eq in E. subst. congruence.
+  - apply str_ltb_iff in E. congruence.
+  - assert (L : str_ltb a b = true) by (apply str_ltb_iff; rewrite scmp_opp, E; reflexivity).
+    rewrite (str_ltb_trans _ _ _ H3 L) in H2. discriminate.
+Qed.
+Lemma kcnt_perm p l l' : Permutation l l' -> kcnt p l = kcnt p l'.
+Proof.
+  induction 1; auto; rewrite ?kcnt_cons in *; try lia.
+Qed.
+
+Section InsBy.
+  Variable k : ty -> str.
+  Definition key_le (a b : ty) : Prop := str_ltb (k b) (k a) = false.
+  Lemma ins_by_split x : forall S, StronglySorted key_le S -> exists S1 S2,
+    ins_by k x S = S1 ++ x :: S2 /\ S = S1 ++ S2 /\
+    Forall (fun y => str_ltb (k y) (k x) = true) S1 /\ Forall (fun y => str_ltb (k y) (k x) = false) S2.
+  Proof.
+    induction S as [|y S IH]; intros HS; simpl.
+    - exists [], []. repeat split; auto.
+    - inversion HS as [|? ? HS' Hy]; subst. destruct (str_cmp (k x) (k y)) eqn:E.
+      + exists [], (y :: S). repeat split; auto. constructor.
+        * unfold str_ltb. rewrite scmp_opp, E. reflexivity.
+        * eapply Forall_impl; [|exact Hy]. intros z Hz. unfold key_le in Hz. eapply str_nlt_trans; [|exact Hz].
+          unfold str_ltb. rewrite scmp_opp, E. reflexivity.
+      + exists [], (y :: S). repeat split; auto. constructor.
+        * unfold str_ltb. rewrite scmp_opp, E. reflexivity.
+        * eapply Forall_impl; [|exact Hy]. intros z Hz. unfold key_le in Hz. eapply str_nlt_trans; [|exact Hz].
+          unfold str_ltb. rewrite scmp_opp, E. reflexivity.
+      + destruct (IH HS') as (S1 & S2 & E1 & E2 & F1 & F2). exists (y :: S1), S2. repeat split; auto.
+        * simpl. now rewrite E1.
+        * simpl. now rewrite E2.
+        * constructor; auto. unfold str_ltb. rewrite scmp_opp, E. reflexivity.
+  Qed.
+  Lemma ins_by_sorted x : forall S, StronglySorted key_le S -> StronglySorted key_le (ins_by k x S).
+  Proof.
+    induction S as [|y S IH]; intros HS; simpl.
+    - constructor; auto.
+    - inversion HS as [|? ? HS' Hy]; subst.
+      assert (T : str_cmp (k x) (k y) <> Gt -> StronglySorted key_le (x :: y :: S)).
+      { intros NG. constructor; auto.
+        assert (Lxy : key_le x y). { unfold key_le, str_ltb. rewrite scmp_opp. destruct (str_cmp (k x) (k y)); auto. congruence. }
+        constructor; auto. eapply Forall_impl; [|exact Hy]. intros z Hz. unfold key_le in *. eapply str_nlt_trans; eauto. }
+      destruct (str_cmp (k x) (k y)) eqn:E; try (apply T; congruence).
+      constructor; auto. eapply Permutation_Forall; [apply Permutation_sym, ins_by_perm|]. constructor; auto.
+      unfold key_le, str_ltb. rewrite E. reflexivity.
+  Qed.
+  Lemma ins_by_app_le a x S2 : str_cmp (k a) (k x) <> Gt -> forall S1, ins_by k a (S1 ++ x :: S2) = ins_by k a S1 ++ x :: S2.
+  Proof.
+    intros NG. induction S1 as [|y S1 IH]; simpl.
+    - destruct (str_cmp (k a) (k x)); auto. congruence.
+    - destruct (str_cmp (k a) (k y)); auto. now rewrite IH.
+  Qed.
+  Lemma ins_by_app_gt a x S2 : str_cmp (k a) (k x) = Gt -> forall S1, Forall (fun y => str_ltb (k x) (k y) = false) S1 ->
+    ins_by k a (S1 ++ x :: S2) = S1 ++ x :: ins_by k a S2.
+  Proof.
+    intros G. induction S1 as [|y S1 IH]; simpl; intros F.
+    - now rewrite G.
+    - inversion F; subst. assert (L : str_ltb (k x) (k a) = true) by (apply str_ltb_iff; rewrite scmp_opp, G; reflexivity).
+      destruct (str_cmp (k a) (k y)) eqn:E.
+      + apply scmp_eq in E. congruence.
+      + apply str_ltb_iff in E. pose proof (str_ltb_trans _ _ _ L E) as T. congruence.
+      + now rewrite IH.
+  Qed.
+End InsBy.
+
+Local Notation skey_le := (key_le sort_key).
+Lemma ssort_sorted : forall l, StronglySorted skey_le (ssort l).
+Proof. induction l; simpl; [constructor | now apply ins_by_sorted]. Qed.
+
+Lemma kcnt_all_true p l : Forall (fun y => p y = true) l -> kcnt p l = length l.
+Proof. induction 1; auto. rewrite kcnt_cons, H. simpl. lia. Qed.
+Lemma kcnt_all_false p l : Forall (fun y => p y = false) l -> kcnt p l = 0.
+Proof. induction 1; auto. rewrite kcnt_cons, H. simpl. lia. Qed.
+
+Lemma ssort_rank : forall p x r, exists S1 S2, ssort (p ++ x :: r) = S1 ++ x :: S2 /\
+  length S1 = sorted_pos (map sort_key (p ++ x :: r)) (map sort_key p) (sort_key x) /\
+  Forall (fun y => str_ltb (sort_key x) (sort_key y) = false) S1.
+Proof.
+  induction p as [|a p IH]; intros x r.
+  - simpl app. change (ssort (x :: r)) with (ins_by sort_key x (ssort r)).
+    destruct (ins_by_split sort_key x (ssort r) (ssort_sorted r)) as (S1 & S2 & E1 & E2 & F1 & F2).
+    exists S1, S2. split; auto. split.
+    + rewrite sorted_pos_kcnt. simpl map. rewrite kcnt_cons, str_ltb_irrefl. unfold kcnt at 2. simpl.
+      rewrite <- (kcnt_perm _ _ _ (Permutation_map sort_key (ssort_perm r))), E2, map_app, kcnt_app.
+      rewrite (kcnt_all_true _ (map sort_key S1)), (kcnt_all_false _ (map sort_key S2)), map_length; [lia| |];
+        apply Forall_forall; intros y Hy; apply in_map_iff in Hy as (z & <- & Hz);
+        [exact (proj1 (Forall_forall _ _) F2 z Hz) | exact (proj1 (Forall_forall _ _) F1 z Hz)].
+    + eapply Forall_impl; [|exact F1]. intros y Hy. simpl in Hy.
+      destruct (str_ltb (sort_key x) (sort_key y)) eqn:C; auto.
+      pose proof (str_ltb_trans _ _ _ Hy C) as T. rewrite str_ltb_irrefl in T. discriminate.
+  - destruct (IH x r) as (S1 & S2 & E & L & F). simpl app.
+    change (ssort (a :: p ++ x :: r)) with (ins_by sort_key a (ssort (p ++ x :: r))). rewrite E.
+    rewrite sorted_pos_kcnt in *. simpl map. rewrite !kcnt_cons.
+    destruct (str_cmp (sort_key a) (sort_key x)) eqn:C.
+    + rewrite ins_by_app_le by congruence. exists (ins_by sort_key a S1), S2. split; auto.
+      apply scmp_eq in C. rewrite C, str_ltb_irrefl. replace (str_eqb (sort_key x) (sort_key x)) with true by (symmetry; now apply str_eqb_iff).
+      split.
+      * rewrite (Permutation_length (ins_by_perm sort_key a S1)). simpl. lia.
+      * eapply Permutation_Forall; [apply Permutation_sym, ins_by_perm|]. constructor; auto. rewrite C. apply str_ltb_irrefl.
+    + rewrite ins_by_app_le by congruence. exists (ins_by sort_key a S1), S2. split; auto.
+      assert (L1 : str_ltb (sort_key a) (sort_key x) = true) by now apply str_ltb_iff. rewrite L1.
+      assert (L2 : str_eqb (sort_key a) (sort_key x) = false).
+      { destruct (str_eqb (sort_key a) (sort_key x)) eqn:B; auto. apply str_eqb_iff in B. rewrite B, str_ltb_irrefl in L1. discriminate. }
+      rewrite L2. split.
+      * rewrite (Permutation_length (ins_by_perm sort_key a S1)). simpl. lia.
+      * eapply Permutation_Forall; [apply Permutation_sym, ins_by_perm|]. constructor; auto.
+        unfold str_ltb. rewrite scmp_opp, C. reflexivity.
+    + rewrite ins_by_app_gt; auto. exists S1, (ins_by sort_key a S2). split; auto.
+      assert (L1 : str_ltb (sort_key a) (sort_key x) = false) by (unfold str_ltb; now rewrite C). rewrite L1.
+      assert (L2 : str_eqb (sort_key a) (sort_key x) = false).
+      { destruct (str_eqb (sort_key a) (sort_key x)) eqn:B; auto. apply str_eqb_iff in B. rewrite B, scmp_refl in C. discriminate. }
+      rewrite L2. split; auto.
+Qed.
+Lemma ssort_nth p x r d :
+  nth (sorted_pos (map sort_key (p ++ x :: r)) (map sort_key p) (sort_key x)) (ssort (p ++ x :: r)) d = x.
+Proof.
+  destruct (ssort_rank p x r) as (S1 & S2 & E & L & _). rewrite E, <- L, app_nth2, Nat.sub_diag; auto.
+Qed.
+
+Section GoRefl.
+  Variable f : ty -> ty -> bool.
+  Lemma py_go_refl_gen xs : forall l p, xs = p ++ l -> (forall x, In x l -> f x x = true) ->
+    py_go f (map sort_key xs) (ssort xs) (map sort_key p) l = true.
+  Proof.
+    induction l as [|x l IH]; simpl; intros p E H; auto.
+    rewrite E at 1 2. rewrite ssort_nth, H by auto. simpl.
+    replace (map sort_key p ++ [sort_key x]) with (map sort_key (p ++ [x])) by (rewrite map_app; reflexivity).
+    apply IH; auto. rewrite <- app_assoc. exact E.
+  Qed.
+  Lemma py_go_refl xs : (forall x, In x xs -> f x x = true) -> py_go f (map sort_key xs) (ssort xs) [] xs = true.
+  Proof. intros H. apply (py_go_refl_gen xs xs []); auto. Qed.
+End GoRefl.
+
 Section PyEq.
   Variable accepts : pseudo -> str -> bool.
   Variable mf : N -> option fields.
@@ -411,11 +734,17 @@ Section PyEq.
   Notation ht := (htg accepts mf uk).
   Notation py_eq := (py_eq peq).
 
-  Lemma py_eq_union xs ys : py_eq (TUnion xs) (TUnion ys) =
-    Nat.eqb (length xs) (length ys) && forallb (fun x => existsb (py_eq x) ys) xs
-    && forallb (fun y => existsb (fun x => py_eq x y) xs) ys.
+  (* the union clause of py_eq: sorted(xs) == sorted(ys), written as an iteration over xs (Model/Merge.v) *)
+  Lemma py_eq_union_go xs ys : py_eq (TUnion xs) (TUnion ys) =
+    Nat.eqb (length xs) (length ys) && py_go py_eq (map sort_key xs) (ssort ys) [] xs.
+  Proof. reflexivity. Qed.
+  (* what the proofs use: the exact clause implies the two-sided matching that was the former model *)
+  Lemma py_eq_union_imp xs ys : py_eq (TUnion xs) (TUnion ys) = true ->
+    length xs = length ys /\ (forall x, In x xs -> exists y, In y ys /\ py_eq x y = true) /\
+    (forall y, In y ys -> exists x, In x xs /\ py_eq x y = true).
   Proof.
-    simpl. f_equal.
+    rewrite py_eq_union_go. intros H. apply andb_prop in H as [H1 H2]. apply Nat.eqb_eq in H1.
+    split; auto. apply py_go_union; auto.
   Qed.
   Lemma py_eq_obj xs ys : py_eq (TObj xs) (TObj ys) =
     Nat.eqb (length xs) (length ys) &&
@@ -433,7 +762,8 @@ Section PyEq.
        a = TUnion [A1; A2], b = TUnion [A1; TInt], A1 = TObj [a:int; b:int], A2 = TObj [b:int; a:int];
        py_eq a b = true (A1->A1, A2->A1) but JInt 5 is accepted by b only.  With the samples
        {"f":[{"a":1,"b":1},{"b":1,"a":1}]} and {"f":[{"a":1,"b":1},5]} the model kept f : List[A] and rejected
-       the second sample (checked by vm_compute before Model/Merge.v was repaired to the two-sided matching). *)
+       the second sample (checked by vm_compute before Model/Merge.v was repaired to the two-sided matching, which the
+     exact clause of today implies: py_eq_union_imp). *)
   (* (3) side conditions forced by the proof (both decidable): okt0 a, okt0 b, i.e. an overflowed literal carries
      the empty set and a plain literal a non-empty one (literals are compared by their sets only, so TLit true []
      must never meet TLit false []), and raw-dict keys are unique *)
@@ -457,15 +787,15 @@ Section PyEq.
     - simpl in *. specialize (IHa b Oa Ob E).
       split; intros Hv; inversion Hv; subst; constructor; (eapply Forall_impl; [|eassumption]);
         intros x Hx; now apply IHa.
-    - rewrite py_eq_union in E. apply andb_prop in E as [E E2]. apply andb_prop in E as [_ E1].
+    - apply py_eq_union_imp in E. destruct E as [_ [E1 E2]].
       rewrite okt0_union in Oa, Ob.
-      rewrite forallb_forall in E1, E2, Oa, Ob. rewrite Forall_forall in H.
+      rewrite forallb_forall in Oa, Ob. rewrite Forall_forall in H.
       split; intros Hv; inversion Hv; subst.
       + match goal with Hi : In ?t ts, Ht : ht v ?t |- _ => rename t into x; rename Hi into Hin; rename Ht into Hx end.
-        specialize (E1 x Hin). apply existsb_exists in E1 as [y [Hy Exy]].
+        destruct (E1 x Hin) as [y [Hy Exy]].
         apply GUnion with (t := y); auto. destruct (H x Hin y (Oa x Hin) (Ob y Hy) Exy v) as [F B]. auto.
       + match goal with Hi : In ?t ts0, Ht : ht v ?t |- _ => rename t into y; rename Hi into Hin; rename Ht into Hy end.
-        specialize (E2 y Hin). apply existsb_exists in E2 as [x [Hx Exy]].
+        destruct (E2 y Hin) as [x [Hx Exy]].
         apply GUnion with (t := x); auto. destruct (H x Hx y (Oa x Hx) (Ob y Hin) Exy v) as [F B]. auto.
     - rewrite py_eq_obj in E. apply andb_prop in E as [EL E]. apply Nat.eqb_eq in EL.
       rewrite okt0_obj in Oa, Ob. unfold okf0 in Oa, Ob.
@@ -506,6 +836,103 @@ Section PyEq.
     - simpl in E. apply Hpeq; auto.
   Qed.
 End PyEq.
+
+(* ---- documentation of the exact union clause: it is the element-wise comparison of the two stably sorted member lists
+   (py_eq_union_sorted), reflexive on well-formed raw metadata (py_eq_refl_raw), order sensitive on members with equal
+   sort keys and order free otherwise (py_eq_order_sensitive, py_eq_order_free). ---- *)
+Lemma sp_ranks_combine all : forall (l : list ty) pre x q, In (x, q) (combine l (sp_ranks all pre (map sort_key l))) ->
+  exists m r, l = m ++ x :: r /\ q = sorted_pos all (pre ++ map sort_key m) (sort_key x).
+Proof.
+  induction l as [|a l IH]; simpl; intros pre x q H; [contradiction|]. destruct H as [H|H].
+  - inversion H; subst. exists [], l. rewrite app_nil_r. auto.
+  - apply IH in H as (m & r & -> & ->). exists (a :: m), r. simpl. rewrite <- app_assoc. auto.
+Qed.
+Lemma Forall2_of_nth {A B} (R : A -> B -> Prop) d d' : forall l l', length l = length l' ->
+  (forall q, q < length l -> R (nth q l d) (nth q l' d')) -> Forall2 R l l'.
+Proof.
+  induction l as [|a l IH]; intros [|b l'] E H; simpl in *; try discriminate; constructor.
+  - apply (H 0). lia.
+  - apply IH; [lia|]. intros q Hq. apply (H (S q)). lia.
+Qed.
+Lemma Forall2_to_nth {A B} (R : A -> B -> Prop) d d' l l' : Forall2 R l l' ->
+  forall q, q < length l -> R (nth q l d) (nth q l' d').
+Proof. induction 1; simpl; intros q Hq; [lia|]. destruct q; auto. apply IHForall2. lia. Qed.
+
+Lemma Forall2_same_length {A B} (R : A -> B -> Prop) l l' : Forall2 R l l' -> length l = length l'.
+Proof. induction 1; simpl; auto. Qed.
+Lemma ssort_nth' xs m x r d : xs = m ++ x :: r ->
+  nth (sorted_pos (map sort_key xs) (map sort_key m) (sort_key x)) (ssort xs) d = x.
+Proof. intros ->. apply ssort_nth. Qed.
+
+Section PyEqProps.
+  Variable peq : N -> N -> bool.
+  Notation py_eq := (py_eq peq).
+
+  (* py_go is the element-wise comparison of the two sorted lists *)
+  Lemma py_go_sorted (f : ty -> ty -> bool) xs sys : length xs = length sys ->
+    (py_go f (map sort_key xs) sys [] xs = true <-> Forall2 (fun x y => f x y = true) (ssort xs) sys).
+  Proof.
+    intros EL. rewrite py_go_spec, forallb_forall.
+    pose proof (sp_ranks_perm (map sort_key xs)) as P. rewrite map_length in P.
+    assert (LS : length (ssort xs) = length xs) by (apply Permutation_length, ssort_perm).
+    split.
+    - intros G. apply (Forall2_of_nth _ TNull TNull); [lia|]. intros q Hq.
+      assert (Hq' : In q (sp_ranks (map sort_key xs) [] (map sort_key xs))).
+      { apply (Permutation_in _ (Permutation_sym P)). apply in_seq. lia. }
+      destruct (in_combine_r_ex xs (sp_ranks (map sort_key xs) [] (map sort_key xs)) q) as [x Hx];
+        [rewrite sp_ranks_length, map_length; auto | exact Hq' |].
+      pose proof (G _ Hx) as Fx. simpl in Fx.
+      apply sp_ranks_combine in Hx as (m & r & E & Eq). simpl in Eq.
+      assert (Nq : nth q (ssort xs) TNull = x) by (rewrite Eq; apply (ssort_nth' xs m x r TNull E)).
+      rewrite Nq. exact Fx.
+    - intros F [x q] Hx. simpl. pose proof (in_combine_r _ _ _ _ Hx) as Hq.
+      apply (Permutation_in _ P), in_seq in Hq.
+      apply sp_ranks_combine in Hx as (m & r & E & Eq). simpl in Eq.
+      pose proof (Forall2_to_nth _ TNull TNull _ _ F q) as T. simpl in T.
+      assert (Nq : nth q (ssort xs) TNull = x) by (rewrite Eq; apply (ssort_nth' xs m x r TNull E)).
+      rewrite Nq in T. apply T. lia.
+  Qed.
+
+  (* the union clause is exactly self.sorted == other.sorted *)
+  Theorem py_eq_union_sorted xs ys :
+    py_eq (TUnion xs) (TUnion ys) = true <-> Forall2 (fun x y => py_eq x y = true) (ssort xs) (ssort ys).
+  Proof.
+    rewrite py_eq_union_go, andb_true_iff, Nat.eqb_eq.
+    pose proof (Permutation_length (ssort_perm xs)). pose proof (Permutation_length (ssort_perm ys)).
+    split.
+    - intros [EL G]. apply py_go_sorted; [lia | exact G].
+    - intros F. pose proof (Forall2_same_length _ _ _ F). split; [lia|]. apply py_go_sorted; [lia | exact F].
+  Qed.
+
+  (* == is reflexive on well-formed raw metadata (unique dict keys) as soon as it is on pointers *)
+  Theorem py_eq_refl_raw : (forall i, peq i i = true) -> forall t, okt0 t = true -> py_eq t t = true.
+  Proof.
+    intros Hp. induction t using ty_ind2; intros O; try reflexivity.
+    - destruct p; reflexivity.
+    - simpl. unfold strs_eqb. destruct (list_eq_dec (list_eq_dec N.eq_dec) ls ls); congruence.
+    - simpl in *. auto.
+    - simpl in *. auto.
+    - simpl in *. auto.
+    - rewrite py_eq_union_go, Nat.eqb_refl. simpl. apply py_go_refl.
+      rewrite okt0_union, forallb_forall in O. rewrite Forall_forall in H. intros x Hx. apply H; auto.
+    - rewrite py_eq_obj, Nat.eqb_refl. simpl. rewrite okt0_obj in O. unfold okf0 in O.
+      apply andb_prop in O as [ND O]. apply nodup_keys_NoDup in ND. rewrite forallb_forall in O |- *.
+      rewrite Forall_forall in H. intros [k x] Hin. simpl.
+      rewrite (In_lookup_nodup k x fs ND Hin). apply (H _ Hin). apply (O _ Hin).
+    - simpl. apply Hp.
+  Qed.
+End PyEqProps.
+
+(* the relation is order sensitive on members with the same sort key (raw dicts with the same key set) ... *)
+Example py_eq_order_sensitive :
+  py_eq N.eqb (TUnion [TObj [([97%N], TBool)]; TObj [([97%N], TInt)]]) (TUnion [TObj [([97%N], TInt)]; TObj [([97%N], TBool)]]) = false
+  /\ py_eq N.eqb (TUnion [TObj [([97%N], TBool)]; TObj [([97%N], TInt)]]) (TUnion [TObj [([97%N], TBool)]; TObj [([97%N], TInt)]]) = true.
+Proof. split; vm_compute; reflexivity. Qed.
+(* ... while members with different sort keys may come in any order *)
+Example py_eq_order_free :
+  py_eq N.eqb (TUnion [TInt; TList TStr]) (TUnion [TList TStr; TInt]) = true
+  /\ py_eq N.eqb (TUnion [TObj [([97%N], TBool)]; TInt; TObj [([98%N], TBool)]]) (TUnion [TObj [([98%N], TBool)]; TObj [([97%N], TBool)]; TInt]) = true.
+Proof. split; vm_compute; reflexivity. Qed.
 
 
 (* the invariant carried through merge and optimisation: okt0, and moreover the fields of a raw dict that sits
@@ -2524,6 +2951,9 @@ Print Assumptions mk_union_sound.
 Print Assumptions union1_sound.
 Print Assumptions dunion_sound.
 Print Assumptions py_eq_sound.
+Print Assumptions py_eq_union_imp.
+Print Assumptions py_eq_union_sorted.
+Print Assumptions py_eq_refl_raw.
 Print Assumptions merge_field_sets_sound.
 Print Assumptions merge_member_sound.
 Print Assumptions resolve_sound.
